@@ -315,3 +315,12 @@ LINEAR = {
     "off_faces": ("off", lambda n: (f"OFF\n{3 * n} {n} 0\n" + "".join(f"{i} 0 0\n{i} 1 0\n{i} 0 1\n" for i in range(n)) + "".join(f"3 {3 * i} {3 * i + 1} {3 * i + 2}\n" for i in range(n))).encode()),
     "xyz_points": ("xyz", lambda n: ("".join(f"{i} {i % 7} {i % 3}\n" for i in range(n))).encode()),
 }
+
+
+def _obj_alternating(n):
+    """One object, two materials, faces not sorted by material: n switches back to a material used before."""
+    head = "o part\nv 0 0 0\nv 1 0 0\nv 0 1 0\nv 0 0 1\n"
+    return (head + "".join(f"usemtl m{i % 2}\nf 1 2 {3 + i % 2}\n" for i in range(n))).encode()
+
+
+LINEAR["obj_alternating_materials"] = ("obj", _obj_alternating)
